@@ -350,8 +350,9 @@ def encode_core(ap, obs_end):
     Raises NotCore when the project leaves the dialect of Model/Sched.v."""
     G = ap.get("G", 3600)
     S = ap["start"]
-    if ap.get("alap") or S % G:
-        raise NotCore("alap / unaligned start")
+    backward = bool(ap.get("alap"))          # read backwards by Model/Alap.v ('alap ...' line)
+    if S % G:
+        raise NotCore("unaligned start")
     upper = (obs_end - S) // G
     if upper > 1500:
         raise NotCore("horizon too long for the unary-number model run")
@@ -412,10 +413,22 @@ def encode_core(ap, obs_end):
     for v, per, only in limits:
         out += [v, per, only]
     edges = all_edges(ap)
+    if backward:
+        # successor edges: declared on a task or container X ("X depends Y" / "Y precedes X") they bind Y and,
+        # by inheritance, everything below Y; the target X stays a task or container
+        own_succ = {p: [] for p in tidx}
+        for p, n in tidx.items():
+            for d in n.get("deps", []) or []:
+                own_succ[tuple(d["to"])].append((p, (d.get("gap") or 0) * 60, bool(d.get("onstart")), d.get("gaplen") or d.get("maxgap")))
+            for d in n.get("precedes", []) or []:
+                own_succ[p].append((tuple(d["to"]), (d.get("gap") or 0) * 60, bool(d.get("onstart")), d.get("gaplen") or d.get("maxgap")))
+        edges = {p: [e for k in range(len(p), 0, -1) for e in own_succ[p[:k]]] for p in tidx}
     out.append(len(order))
     for p in order:
         n = tidx[p]
         leaf = "kids" not in n
+        if backward and (n.get("start") is not None or n.get("sched")):
+            raise NotCore("start / task-level mode in a backward project")
         kids = [tnum[p + (k["id"],)] for k in n.get("kids", [])]
         lvs = [tnum[x] for x in leaves_under(n, p)]
         prio = 500
@@ -425,7 +438,7 @@ def encode_core(ap, obs_end):
                 break
         need, team = 0, []
         if leaf and n.get("effort") is not None:
-            if n.get("alt") or n.get("sched") or n.get("end") is not None:
+            if n.get("alt") or n.get("sched") or (n.get("end") is not None and not backward):
                 raise NotCore("alternatives / task-level mode / end")
             if any(x not in rnum for x in n["alloc"]):
                 raise NotCore("resource group in an allocation")
@@ -437,28 +450,41 @@ def encode_core(ap, obs_end):
             need = int(round(need_f))
         deps = []
         for (q, gap, onstart, gaplen) in edges[p]:
-            if gaplen or gap % G:
-                raise NotCore("gap is not a whole number of slots")
+            if gaplen or gap % G or (backward and onstart):
+                raise NotCore("gap is not a whole number of slots / edge kind outside the dialect")
             deps.append((tnum[q], 1 if onstart else 0, gap // G))
         pin = -1
-        if n.get("start") is not None and leaf:
-            if (n["start"] - S) % G or n["start"] < S:
-                raise NotCore("pinned start not on a slot boundary of the horizon")
-            pin = (n["start"] - S) // G
-        lb = 0
-        for k in range(len(p) - 1, 0, -1):
-            s = tidx[p[:k]].get("start")
-            if s is not None:
-                if (s - S) % G:
-                    raise NotCore("container start not aligned")
-                lb = max(0, (s - S) // G)
-                break
+        if backward:
+            if n.get("end") is not None and leaf:
+                if (n["end"] - S) % G or n["end"] < S or n["end"] > S + upper * G:
+                    raise NotCore("pinned end not on a slot boundary of the horizon")
+                pin = (n["end"] - S) // G
+            lb = upper
+            for k in range(len(p) - 1, 0, -1):      # the earliest deadline of the enclosing containers
+                e = tidx[p[:k]].get("end")
+                if e is not None:
+                    if (e - S) % G or e < S:
+                        raise NotCore("container end not aligned")
+                    lb = min(lb, (e - S) // G)
+        else:
+            if n.get("start") is not None and leaf:
+                if (n["start"] - S) % G or n["start"] < S:
+                    raise NotCore("pinned start not on a slot boundary of the horizon")
+                pin = (n["start"] - S) // G
+            lb = 0
+            for k in range(len(p) - 1, 0, -1):
+                s = tidx[p[:k]].get("start")
+                if s is not None:
+                    if (s - S) % G:
+                        raise NotCore("container start not aligned")
+                    lb = max(0, (s - S) // G)
+                    break
         tl = []
         for k in range(len(p), 0, -1):
             tl += tlim[p[:k]]
         out += [1 if leaf else 0, len(kids)] + kids + [len(lvs)] + lvs + [prio, need, len(team)] + team
         out += [len(deps)] + [x for d in deps for x in d] + [pin, lb, len(tl)] + tl
-    return "sched " + " ".join(str(x) for x in out), order, [fid(p) for p, _ in rleaf]
+    return ("alap " if backward else "sched ") + " ".join(str(x) for x in out), order, [fid(p) for p, _ in rleaf]
 
 
 def model_results(ap, obs, line_order):
